@@ -396,8 +396,21 @@ def run_np_correspondence(ctx, np, pre, have_model):
 
 
 # ------------------------------------------------- correspondence: torch side
+def gen_defaults():
+    """Default coefficients as recorded by the translator in coq/gen/Pre.v."""
+    import re
+    from fractions import Fraction
+
+    txt = open(os.path.join(C.COQ, "gen", "Pre.v")).read()
+    return {m.group(1): Fraction(int(m.group(2)), int(m.group(3)))
+            for m in re.finditer(r"Definition (\w+)_default_coeff : Z \* Z := \((-?\d+), (\d+)\)", txt)}
+
+
 def run_torch_correspondence(ctx, np, torch, pt, pre, have_model):
     r = ctx.rng
+    dflt = gen_defaults() if have_model else {}
+    d_pre = float(dflt.get("torch_preemph", 0.97))
+    d_dit = float(dflt.get("torch_dither", 1.0))
     n_cases = ctx.scale(160, 3000)
     maxlen = ctx.scale(20, 48)
     terms, kept = [], []
@@ -418,7 +431,7 @@ def run_torch_correspondence(ctx, np, torch, pt, pre, have_model):
             if which == "preemph":
                 if form == "functional":
                     out = pt.pytorch_preemphasize(sig) if c is None else pt.pytorch_preemphasize(sig, c)
-                    ceff = 0.97 if c is None else float(c)
+                    ceff = d_pre if c is None else float(c)
                 elif form == "module":
                     mod = pt.PyTorchPreemphasize() if c is None else pt.PyTorchPreemphasize(c)
                     out, ceff = mod(sig), float(mod.coeff)
@@ -432,7 +445,7 @@ def run_torch_correspondence(ctx, np, torch, pt, pre, have_model):
                 torch.manual_seed(seed)
                 if form == "functional":
                     out = pt.pytorch_dither(sig) if c is None else pt.pytorch_dither(sig, c)
-                    ceff = 1.0 if c is None else float(c)
+                    ceff = d_dit if c is None else float(c)
                 elif form == "module":
                     mod = pt.PyTorchDither() if c is None else pt.PyTorchDither(c)
                     out, ceff = mod(sig), float(mod.coeff)
@@ -768,11 +781,7 @@ def regenerate(ctx):
 
 def check_defaults(ctx, pre, pt):
     """Constructor defaults recorded by the translator = what the classes really use."""
-    from fractions import Fraction
-    import re
-
-    txt = open(os.path.join(C.COQ, "gen", "Pre.v")).read()
-    got = {m.group(1): Fraction(int(m.group(2)), int(m.group(3))) for m in re.finditer(r"Definition (\w+)_default_coeff : Z \* Z := \((-?\d+), (\d+)\)", txt)}
+    got = gen_defaults()
     objs = {"dither": pre.Dither(), "preemph": pre.Preemphasize()}
     if pt is not None:
         objs["torch_preemph_module"] = pt.PyTorchPreemphasize()
